@@ -317,6 +317,205 @@ subroutine tile(a, b, n, m)
 end subroutine tile
 """)
 
+_seed("swap", """
+subroutine swap(a, n, m)
+  integer, intent(in) :: n, m
+  real, intent(inout) :: a(n,m)
+  integer :: i, j
+  do j = 1, m
+  end do
+  do j = 1, m
+    do i = 1, n
+      a(i,j) = 0.0
+    end do
+    a(1,j) = 1.0
+  end do
+  do j = 1, m
+    do i = 1, n
+      call ext(a(i,j))
+    end do
+  end do
+  do j = 1, i
+    do i = 1, n
+      a(i,j) = 2.0
+    end do
+  end do
+end subroutine swap
+""")
+
+_seed("fuse2", """
+subroutine fuse2(a, b, c, n)
+  integer, intent(in) :: n
+  real, intent(inout) :: a(n), b(n), c(n,n)
+  integer :: i, k
+  real :: s
+  do i = 1, n
+    s = a(i)
+  end do
+  do i = 1, n
+    b(i) = s
+  end do
+  do i = 1, n
+    c(i,1) = b(i)
+  end do
+  do i = 1, n
+    b(i) = c(1,i)
+  end do
+  do k = 1, n
+    a(k) = a(k) + i
+  end do
+  do i = 1, n
+    c(2,2) = c(2,2) + a(i)
+  end do
+  do i = 1, n
+    a(i) = c(2,2)
+  end do
+end subroutine fuse2
+""")
+
+_seed("inline2", """
+module inline2_mod
+  use other_mod, only: far_sub
+  use wild_mod
+  integer :: shared
+contains
+subroutine top(a, b, n, s)
+  integer, intent(in) :: n
+  real, intent(inout) :: a(n), b(n,n)
+  type(unknown_t) :: s
+  integer :: i
+  call far_sub(a)
+  call nowhere(a)
+  call named(a, n=n)
+  call toofew(a)
+  call reshaper(b, n)
+  call strided(a(1:n:2), n)
+  call indirect(a(idx(1:2)), n)
+  call usesshared(a(1))
+  call blocky(a(1))
+  call clash(a(1))
+  call scalar_to_array(a(1), n)
+  call mystery(s)
+end subroutine top
+subroutine named(x, n)
+  integer, intent(in) :: n
+  real, intent(inout) :: x(n)
+  x(1) = 0.0
+end subroutine named
+subroutine toofew(x, n)
+  integer, intent(in) :: n
+  real, intent(inout) :: x(n)
+  x(1) = 0.0
+end subroutine toofew
+subroutine reshaper(x, n)
+  integer, intent(in) :: n
+  real, intent(inout) :: x(n*n)
+  x(1) = 0.0
+end subroutine reshaper
+subroutine strided(x, n)
+  integer, intent(in) :: n
+  real, intent(inout) :: x(n)
+  x(1) = 0.0
+end subroutine strided
+subroutine indirect(x, n)
+  integer, intent(in) :: n
+  real, intent(inout) :: x(2)
+  x(1) = 0.0
+end subroutine indirect
+subroutine usesshared(x)
+  real, intent(inout) :: x
+  x = x + shared
+end subroutine usesshared
+subroutine blocky(x)
+  real, intent(inout) :: x
+  write(*,*) x
+end subroutine blocky
+subroutine clash(x)
+  use clash_mod, only: i
+  real, intent(inout) :: x
+  x = x + i
+end subroutine clash
+subroutine scalar_to_array(x, n)
+  integer, intent(in) :: n
+  real, intent(inout) :: x(n)
+  x(1) = 0.0
+end subroutine scalar_to_array
+subroutine mystery(x)
+  type(unknown_t) :: x
+  x%v = unresolved_thing
+end subroutine mystery
+end module inline2_mod
+""")
+
+_seed("matmul2", """
+subroutine mm2(a, b, c, x, y, t, r, u)
+  use some_mod, only: ext_a
+  real, intent(inout) :: a(4,4), b(4,4), c(4,4)
+  real, intent(inout) :: x(4), y(4), t(4,4,4), r(4,4,4)
+  real, intent(inout) :: u
+  integer :: idx(4)
+  call consume(matmul(a, b))
+  c = matmul(a, b) * 2.0
+  c = matmul(ext_a, b)
+  c = matmul(a(1:2,1:2), b(1:2,1:2))
+  t(:,:,1) = matmul(t(:,1,:), r(:,:,1))
+  c = matmul(a(idx,:), b)
+  y = matmul(t(1,:,:), x)
+  y(2:3) = matmul(a(2:3,:), x)
+  c = matmul(t, b)
+  u = dot_product(ext_a, x)
+  u = dot_product(a(:,1), x(1:4))
+  u = dot_product(a, b)
+  u = dot_product(x, y(2:5))
+  call consume(dot_product(x, y))
+end subroutine mm2
+""")
+
+_seed("reduce2", """
+subroutine red2(a, b, x, n, d)
+  use some_mod, only: ext_a
+  integer, intent(in) :: n, d
+  real, intent(inout) :: a(n,n), b(n), x
+  logical :: msk(n,n)
+  x = sum(a, dim=1)
+  x = sum(a, d)
+  x = maxval(a(:,1:2), mask=msk(:,1:2))
+  x = minval(ext_a)
+  x = product(a(2,:)) + sum(b(1:n:2))
+  b(1) = sum(a(b,1))
+  call consume(sum(a))
+  x = abs(b)
+  b = max(b, 1.0)
+  x = sign(1.0, b(1)) + min(x, b(2))
+end subroutine red2
+""")
+
+_seed("hoist2", """
+module hoist2_mod
+  real :: tagged(3)
+contains
+subroutine h2(a, n)
+  integer, intent(in) :: n
+  real, intent(inout) :: a(n)
+  integer :: i, j
+  real :: t, u, v(2)
+  do i = 1, n
+    t = 1.0
+    a(i) = t
+    u = u + 1.0
+    t = 2.0
+    v(1) = a(i)
+    if (a(i) > 0.0) then
+      u = 0.0
+    end if
+    do j = i, n + i
+      a(j) = real(j)
+    end do
+  end do
+end subroutine h2
+end module hoist2_mod
+""")
+
 # --- seeds with a history (directives cannot be read from source) -----------
 _OMP_SRC = """
 subroutine omp(a, b, n)
@@ -350,6 +549,15 @@ _seed("acc_par", _OMP_SRC, pre=[
 _seed("acc_data", _OMP_SRC, pre=[
     ("ACCKernelsTrans", {}, {"t": "list", "p": [0], "i": 0, "j": 1}, {}),
     ("ACCDataTrans", {}, {"t": "list", "p": [0], "i": 0, "j": 2}, {}),
+])
+_seed("chunked", _OMP_SRC, pre=[
+    ("ChunkLoopTrans", {}, {"t": "node", "p": [0, 0]}, {"chunksize": 4}),
+])
+_seed("omp_target", _OMP_SRC, pre=[
+    ("OMPLoopTrans", {"omp_directive": "teamsdistributeparalleldo"},
+     {"t": "node", "p": [0, 0]}, {}),
+    ("OMPTargetTrans", {}, {"t": "node", "p": [0, 0]}, {}),
+    ("ACCRoutineTrans", {}, {"t": "node", "p": [0]}, {}),
 ])
 _seed("profiled", _OMP_SRC, pre=[
     ("ProfileTrans", {}, {"t": "list", "p": [0], "i": 0, "j": 1}, {}),
